@@ -239,6 +239,38 @@ def cmdAfterDone : List String := ["callCmd.Reply", "callCmd.InputBodyCodec", "c
 command over through the completion channel, a channel send/receive edge). -/
 def cmdCallerOrdered : List String := ["callCmd.Status", "callCmd.StatusOK", "callCmd.RealIP"]
 
+/-- fields that are written only while the object is built (the named constructor functions) and only read
+afterwards; every field of a watched struct that is not a lock and has no other discipline must be listed here
+(the extractor watches ALL fields of these structs, so a field that is missing here makes
+`C14_discipline_partial` fail: fails closed). -/
+def initOnlyFields : List (String × List String) := [
+  -- session: set in the composite literal of newSession
+  ("session.peer", ["newSession"]), ("session.getCallHandler", ["newSession"]),
+  ("session.getPushHandler", ["newSession"]), ("session.timeNow", ["newSession"]),
+  -- callCmd: set in the composite literal of AsyncCall, before the command is stored in callCmdMap / sent
+  ("callCmd.start", ["session.AsyncCall"]), ("callCmd.sess", ["session.AsyncCall"]),
+  ("callCmd.output", ["session.AsyncCall"]), ("callCmd.swap", ["session.AsyncCall"]),
+  ("callCmd.callCmdChan", ["session.AsyncCall"]), ("callCmd.doneChan", ["session.AsyncCall"]),
+  -- peer: configuration copied in NewPeer
+  ("peer.router", ["NewPeer"]), ("peer.pluginContainer", ["NewPeer"]), ("peer.sessHub", ["NewPeer"]),
+  ("peer.defaultSessionAge", ["NewPeer"]), ("peer.defaultContextAge", ["NewPeer"]),
+  ("peer.slowCometDuration", ["NewPeer"]), ("peer.timeNow", ["NewPeer"]), ("peer.network", ["NewPeer"]),
+  ("peer.defaultBodyCodec", ["NewPeer"]), ("peer.printDetail", ["NewPeer"]), ("peer.countTime", ["NewPeer"]),
+  ("peer.listenAddr", ["NewPeer"]), ("peer.dialer", ["NewPeer"]),
+  -- protocol objects: built by the ProtoFunc literal, one per socket
+  ("rawProto.r", ["RawProtoFunc$lit"]), ("rawProto.w", ["RawProtoFunc$lit"]),
+  ("rawProto.name", ["RawProtoFunc$lit"]), ("rawProto.id", ["RawProtoFunc$lit"]),
+  ("jsonproto.rw", ["NewJSONProtoFunc$lit"]), ("jsonproto.name", ["NewJSONProtoFunc$lit"]),
+  ("jsonproto.id", ["NewJSONProtoFunc$lit"]),
+  ("pbproto.rw", ["NewPbProtoFunc$lit"]), ("pbproto.name", ["NewPbProtoFunc$lit"]), ("pbproto.id", ["NewPbProtoFunc$lit"]),
+  ("httproto.rw", ["NewHTTProtoFunc$lit"]), ("httproto.name", ["NewHTTProtoFunc$lit"]),
+  ("httproto.id", ["NewHTTProtoFunc$lit"]), ("httproto.printMessage", ["NewHTTProtoFunc$lit"]),
+  ("tBinaryProto.rwCounter", ["NewBinaryProtoFunc$lit"]), ("tBinaryProto.name", ["NewBinaryProtoFunc$lit"]),
+  ("tBinaryProto.id", ["NewBinaryProtoFunc$lit"]),
+  ("tStructProto.rwCounter", ["NewStructProtoFunc$lit"]), ("tStructProto.name", ["NewStructProtoFunc$lit"]),
+  ("tStructProto.id", ["NewStructProtoFunc$lit"])
+]
+
 def guardOf (f : String) : Option Discipline :=
   match f with
   | "session.status" => some (.atomicOnly ["newSession"])
@@ -261,7 +293,7 @@ def guardOf (f : String) : Option Discipline :=
   | "socket.Conn" => some (.rw "socket.mu" ["newSocket"] ["socket.initOptimize", "socket.RawLocked"])
   | "socket.protocol" => some (.rw "socket.mu" ["newSocket"] [])
   | "socket.readerWithBuffer" => some (.initOnly ["newSocket"])
-  | "socket.fromPool" => some (.initOnly [])
+  | "socket.fromPool" => some (.initOnly ["socketPool$lit"])
   | "socket.id" => some (.rw "socket.idMutex" [] [])
   | "socket.swap" => some (.rw "socket.swapMutex" [] [])
   | "socket.curState" => some (.atomicOnly [])
@@ -282,7 +314,7 @@ def guardOf (f : String) : Option Discipline :=
   | "PluginContainer.middle" => some (.exempt "plugin containers are configured before serving (setup time)")
   | "PluginContainer.right" => some (.exempt "plugin containers are configured before serving (setup time)")
   | "PluginContainer.refreshTree" => some (.exempt "plugin containers are configured before serving (setup time)")
-  | _ => none
+  | f => (initOnlyFields.lookup f).map Discipline.initOnly
 
 def isExempt : Option Discipline → Bool
   | some (.exempt _) => true
